@@ -80,6 +80,8 @@ class C05(Property):
         ("antismash/common/secmet/features/protocluster.py", "SideloadedProtocluster.definition_cdses"),
         ("antismash/common/secmet/features/cdscollection.py", "CDSCollection.add_cds"),
         ("antismash/common/secmet/record.py", "Record.add_protocluster"),
+        ("antismash/common/secmet/qualifiers/gene_functions.py", "GeneFunctionAnnotations.add"),
+        ("antismash/common/secmet/qualifiers/gene_functions.py", "GeneFunctionAnnotations.get_by_function"),
         ("antismash/common/secmet/features/feature.py", "Feature.start"),
         ("antismash/common/secmet/features/feature.py", "Feature.end"),
         ("antismash/common/secmet/features/feature.py", "Feature.overlaps_with"),
